@@ -146,6 +146,7 @@ struct Cover {
     distinct_dir_orders: HashSet<u64>,
     distinct_iter_orders: HashSet<u64>,
     distinct_outputs: HashSet<u64>,
+    distinct_interleavings: HashSet<u64>,
     dir_first: HashSet<String>,
     dir_last: HashSet<String>,
     map_first: HashSet<u64>,
@@ -178,6 +179,7 @@ impl Cover {
         self.distinct_dir_orders.extend(o.distinct_dir_orders);
         self.distinct_iter_orders.extend(o.distinct_iter_orders);
         self.distinct_outputs.extend(o.distinct_outputs);
+        self.distinct_interleavings.extend(o.distinct_interleavings);
         self.dir_first.extend(o.dir_first);
         self.dir_last.extend(o.dir_last);
         self.map_first.extend(o.map_first);
@@ -222,6 +224,9 @@ fn absorb(ctx: &Ctx, cov: &mut Cover, run: u64, r: &RunResult, v: Vec<Violation>
     let mut od = rng::Fnv::default();
     od.bytes(r.out.as_bytes());
     cov.distinct_outputs.insert(od.0);
+    if r.under_shuttle && r.stats.sched_choice_points > 0 {
+        cov.distinct_interleavings.insert(r.sched_digest);
+    }
     if r.trace.iter().any(|d| !d.is_default()) {
         cov.nondefault_runs += 1;
     }
@@ -956,7 +961,7 @@ fn cmd_check(a: &Args) -> i32 {
         "coverage": {
             "evaluations": total_runs,
             "distinct_nontrivial": distinct_nontrivial,
-            "rule": "one evaluation = one simulated execution of a generator main() from start to finish under a seeded schedule (read_dir order, hasher keys and iteration tweak of every HashMap/HashSet, short-read/EINTR plan of every opened file). Two executions are distinct when the digest of their seam-level event log differs (every seam call with its decision and a digest of what it returned or printed); non-trivial = differs from the event log of the all-default schedule (sorted directory, keys (0,0), no tweak).",
+            "rule": "one evaluation = one simulated execution of a generator main() (and of every thread it starts) from start to finish under a seeded schedule (read_dir order, hasher keys and iteration tweak of every HashMap/HashSet, short-read/EINTR plan of every opened file, short-write/EINTR plan of every output stream, and for programs with threads: the task chosen at every scheduling step, deadlines passed, core count). Two executions are distinct when the digest of their seam-level event log differs (every seam call with its decision and a digest of what it returned or printed); non-trivial = differs from the event log of the all-default schedule (sorted directory, keys (0,0), no tweak).",
             "samples": samples,
             "exhaustive": false,
             "simulated_runs": { "generate_layout_seeded_search": lay.runs, "generate_layout_adjacency_covering_family": cvr.runs, "generate_likelysubtags": lik.runs },
@@ -1018,6 +1023,8 @@ fn cmd_check(a: &Args) -> i32 {
                 "distinct_event_logs_layout": lay.distinct_logs.len(),
                 "distinct_directory_orders": lay.distinct_dir_orders.len(),
                 "distinct_locale_map_iteration_orders": lay.distinct_iter_orders.len(),
+                "distinct_thread_interleavings_layout": lay.distinct_interleavings.len(),
+                "distinct_thread_interleavings_likely": lik.distinct_interleavings.len(),
                 "distinct_generator_outputs_layout": lay.distinct_outputs.len(),
                 "distinct_generator_outputs_likely": lik.distinct_outputs.len(),
                 "locales": ctx.locs.len(),
@@ -1070,8 +1077,10 @@ fn cmd_check(a: &Args) -> i32 {
                 "stubs": [
                     "file system: in-memory image of /repo/unic-langid-impl/data loaded from the working tree at start; read_dir order chosen by the simulator",
                     "RandomState: seeded keys per container + simulator-chosen rotation/reversal of iteration order",
-                    "stdout: captured buffer (println!/print! shadow)",
+                    "stdout: captured buffer (println!/print! shadow); write() on the stdout handle or a created file: seeded short writes and EINTR; stderr discarded",
                     "File::open streams: simulated short reads and EINTR (unused by today's generators, which read whole files)",
+                    "threads and sync primitives (unused by today's generators): shuttle engine (coroutines on the simulator's OS thread) under the simulator's own Scheduler; deadlines of timed waits, available_parallelism() and the clock are simulator decisions",
+                    "process: exit()/return from main freeze the captured output; env, args, cwd fixed",
                 ],
             },
             "replays": reported.iter().map(|(v, p)| json!({"signature": v.signature, "file": p.display().to_string()})).collect::<Vec<_>>(),
@@ -1081,7 +1090,8 @@ fn cmd_check(a: &Args) -> i32 {
             "generator_source_digest": format!("{:016x}", ctx.gen_src_digest),
         },
         "assumptions": [
-            "the nondeterminism a maintainer's machine can present to the generators is: directory enumeration order, HashMap/HashSet iteration order, and (for stream reads) short reads and EINTR; hard I/O errors are out of the property's scope",
+            "the nondeterminism a maintainer's machine can present to the generators is: directory enumeration order, HashMap/HashSet iteration order, short reads/writes and EINTR on streams, and — for a generator that uses them — thread interleaving at synchronisation points, the core count, the clock and how long other threads are kept off the CPU; hard I/O errors are out of the property's scope",
+            "a run in which an injected stall let a deadline pass may fail loudly without being judged; it may not complete with a different table",
             "any permutation of a directory listing is a legal read_dir order; iteration order of a hash container is a function of its hasher keys, capacity and content, optionally rotated/reversed by the simulator",
             "serde_json's object map is a BTreeMap in this build (no preserve_order), as in the repository's own lock file",
             "the CLDR JSON files under unic-langid-impl/data are the source of truth; the reference reader (own subtag splitter and little-endian packer) and serde_json's JSON parser are trusted",
